@@ -45,7 +45,7 @@ type PPlan struct {
 }
 
 func (p *PPlan) Valid() bool {
-	if p.Max < 0 || p.Max > 64 || len(p.Recs) > 120 || p.PollNs < 1 || p.PollNs > 10e9 {
+	if p.Max < 0 || p.Max > 64 || len(p.Recs) > 400 || p.PollNs < 1 || p.PollNs > 10e9 {
 		return false
 	}
 	for _, r := range p.Recs {
@@ -76,8 +76,8 @@ const (
 	nPFaults
 )
 
-var pProbeNames = []string{"events_delivered", "delivered_by_ticker_task", "delivered_by_close", "events_lost_reported", "coalesced_events", "coalesce_errors",
-	"receive_buffer_reused_while_buffered", "receiver_polled_empty_socket", "overflow_or_timeout_eviction", "lost_total_judged"}
+var pProbeNames = []string{"events_delivered", "delivered_by_ticker_task", "delivered_by_closer_task", "events_lost_reported", "coalesced_events", "coalesce_errors",
+	"receiver_polled_empty_socket", "lost_total_judged"}
 
 const (
 	ppDelivered = iota
@@ -86,9 +86,7 @@ const (
 	ppLost
 	ppCoalesced
 	ppCoalesceErr
-	ppBufReuse
 	ppPolled
-	ppEvictIncomplete
 	ppLostJudged
 	nPProbes
 )
@@ -107,7 +105,7 @@ func GenPPlan(r *core.Rng) *PPlan {
 	p.Auto = core.Pick(r, uint32(0), 0, 0, 2, 5, 11)
 	p.AutoSalt = r.U32()
 	fired := make([]int, nPFaults)
-	nEv := r.Range(1, 10)
+	nEv := r.Range(1, core.Scale(10, false))
 	pDrop := core.Pick(r, 0, 5, 15)
 	pDropTerm := core.Pick(r, 0, 20, 50)
 	pGap := core.Pick(r, 0, 15, 40)
@@ -473,6 +471,9 @@ func ExecPPlan(prop string) func(p *PPlan, trace bool) *core.Result {
 				res.Probes[ppDelivered]++
 				if p.Ticker && e.C == 1 {
 					res.Probes[ppByTicker]++
+				}
+				if int(e.C) == len(sc.Tasks)-1 {
+					res.Probes[ppByClose]++
 				}
 			case evPMsg:
 				id := e.B
